@@ -189,21 +189,27 @@ Definition to_source (s : tslice) (x : N) : N :=
 Definition or_else (o : option N) (d : N) : N := match o with Some v => v | None => d end.
 Definition is_none {A} (o : option A) : bool := match o with None => true | Some _ => false end.
 
+(** [continue] of the inner loop: go on with the next slice; when there is none the loop ends
+    without [break] and the cursor stays on the slice just visited. *)
+Definition cont (scan_rest : N -> option N -> option (list seg * list tslice))
+           (s : tslice) (rest' : list tslice) (c : N) (st : option N) : option (list seg * list tslice) :=
+  match rest' with
+  | [] => Some ([], [s])
+  | _ :: _ => scan_rest c st
+  end.
+
+Definition stash_or (stash : option N) (v : N) : option N :=
+  match stash with None => Some v | Some _ => stash end.
+
 (** The inner [for (idx, tfs) in slices.iter().enumerate().skip(tfs_idx)] loop for one
     element. [rest] is [slices[tfs_idx..]]; the result is the emitted tokens and the new
-    cursor (again as a suffix of the slice list). [None] = panic. When the loop runs off
-    the end of the list without [break] the cursor stays on the last slice visited. *)
+    cursor (again as a suffix of the slice list). [None] = panic. *)
 Fixpoint scan (rest : list tslice) (e : elem) (consumed : N) (stash : option N)
   : option (list seg * list tslice) :=
   match rest with
   | [] => Some ([], [])
   | s :: rest' =>
-      let continue_ (c : N) (st : option N) :=
-        match rest' with
-        | [] => Some ([], [s])
-        | _ :: _ => scan rest' e c st
-        end in
-      if is_zero s then continue_ consumed stash
+      if is_zero s then cont (scan rest' e) s rest' consumed stash
       else
         match ty s with
         | SLit =>
@@ -211,25 +217,25 @@ Fixpoint scan (rest : list tslice) (e : elem) (consumed : N) (stash : option N)
               Some ([mk_seg (or_else stash (to_source s (e0 e + consumed))) (to_source s (e1 e))
                             (e0 e + consumed) (e1 e) consumed (e1 e - e0 e)],
                     if e1 e =? t1 s then rest' else rest)
-            else if e0 e =? t1 s then continue_ consumed stash
+            else if e0 e =? t1 s then cont (scan rest' e) s rest' consumed stash
             else if ews e && is_none stash then
               let p := e0 e + consumed in
               if t1 s <? p then None                  (* usize underflow / bad raw sub-slice *)
               else
                 let inc := t1 s - p in
-                match continue_ (consumed + inc) stash with
+                match cont (scan rest' e) s rest' (consumed + inc) stash with
                 | Some (gs, cur) =>
                     Some (mk_seg (to_source s p) (to_source s (t1 s)) p (t1 s) consumed (consumed + inc) :: gs, cur)
                 | None => None
                 end
             else
-              continue_ consumed (match stash with None => Some (to_source s (e0 e)) | Some _ => stash end)
+              cont (scan rest' e) s rest' consumed (stash_or stash (to_source s (e0 e)))
         | STempl =>
             if e1 e <=? t1 s then
               Some ([mk_seg (or_else stash (s0 s)) (s1 s) (e0 e + consumed) (e1 e) consumed (e1 e - e0 e)],
                     if e1 e =? t1 s then rest' else rest)
             else
-              continue_ consumed (match stash with None => Some (s0 s) | Some _ => stash end)
+              cont (scan rest' e) s rest' consumed (stash_or stash (s0 s))
         | SBlockStart => None                          (* unimplemented!() *)
         | SOther => None                               (* panic!("Unable to process slice") *)
         end
@@ -276,6 +282,20 @@ Definition map_spec (sl : list tslice) (a b : N) : option (N * N) :=
   match find (holds_start a) sl, find (holds_end b) sl with
   | Some sa, Some sb => Some (start_in sa a, end_in sb b)
   | _, _ => None
+  end.
+
+(** The tokens of one lexed element as a function of the slice list and the element alone:
+    run the inner loop from the first slice that ends after the element's start. *)
+Fixpoint dropwhile {A} (f : A -> bool) (l : list A) : list A :=
+  match l with
+  | [] => []
+  | x :: l' => if f x then dropwhile f l' else l
+  end.
+Definition cursor_for (sl : list tslice) (p : N) : list tslice := dropwhile (fun s => t1 s <=? p) sl.
+Definition tokens_of (sl : list tslice) (e : elem) : list seg :=
+  match scan (cursor_for sl (e0 e)) e 0 None with
+  | Some (gs, _) => gs
+  | None => []
   end.
 
 (** * [iter_segments] as it was before the repair (fix 7ed96a0), for the [_refuted] lemmas.
